@@ -18,8 +18,10 @@ import (
 	"os"
 	"runtime"
 	"sort"
+	"strconv"
 	"strings"
 	"sync"
+	"sync/atomic"
 	"time"
 )
 
@@ -66,6 +68,7 @@ type Failure struct {
 }
 
 type Summary struct {
+	Stalled            bool           `json:"stalled,omitempty"`
 	Stream             string         `json:"stream"`
 	Rule               string         `json:"rule"`
 	Seed               uint64         `json:"seed"`
@@ -97,7 +100,18 @@ type collector struct {
 	maxFail  int
 }
 
+// enough: the run may stop generating cases
+func (c *collector) enough() bool {
+	c.mu.Lock()
+	defer c.mu.Unlock()
+	return c.sum.SpecFailures >= 25
+}
+
+// progress is bumped whenever a case has been judged; the stall watchdog reads it
+var progress atomic.Int64
+
 func (c *collector) add(stream string, seed uint64, index int, cs Case, r Reply) {
+	progress.Add(1)
 	c.mu.Lock()
 	defer c.mu.Unlock()
 	s := c.sum
@@ -200,6 +214,33 @@ func runStream(st *Stream, seed uint64, n int, tier, driverPath string, workers 
 	if st.Fixed != nil {
 		fixed = st.Fixed()
 	}
+	// stall watchdog: when no case at all completes for stallS seconds, the implementation does not
+	// return (deadlock / livelock).  That is reported as a failing case with the goroutine dump, and the
+	// run ends (the blocked goroutines cannot be recovered).
+	stallS := 120
+	if v, err := strconv.Atoi(os.Getenv("PGVH_STALL_S")); err == nil && v > 0 {
+		stallS = v
+	}
+	stalled := make(chan struct{})
+	stopWatch := make(chan struct{})
+	go func() {
+		last, lastT := progress.Load(), time.Now()
+		tk := time.NewTicker(time.Second)
+		defer tk.Stop()
+		for {
+			select {
+			case <-stopWatch:
+				return
+			case <-tk.C:
+				if p := progress.Load(); p != last {
+					last, lastT = p, time.Now()
+				} else if time.Since(lastT) > time.Duration(stallS)*time.Second {
+					close(stalled)
+					return
+				}
+			}
+		}
+	}()
 	var wg sync.WaitGroup
 	errs := make(chan error, workers)
 	for w := 0; w < workers; w++ {
@@ -226,6 +267,9 @@ func runStream(st *Stream, seed uint64, n int, tier, driverPath string, workers 
 				return
 			}
 			for i := w; i < n; i += workers {
+				if col.enough() {
+					return // plenty of failing cases already: more add nothing (and may each wait for a timeout)
+				}
 				var cs Case
 				if st.Enum != nil {
 					cs = st.Enum(i, tier)
@@ -241,7 +285,30 @@ func runStream(st *Stream, seed uint64, n int, tier, driverPath string, workers 
 			}
 		}(w)
 	}
-	wg.Wait()
+	done := make(chan struct{})
+	go func() { wg.Wait(); close(done) }()
+	select {
+	case <-done:
+		close(stopWatch)
+	case <-stalled:
+		buf := make([]byte, 1<<20)
+		buf = buf[:runtime.Stack(buf, true)]
+		dump := string(buf)
+		if len(dump) > 12000 {
+			dump = dump[:12000]
+		}
+		col.mu.Lock()
+		sum.SpecFailures++
+		sum.Failures = append(sum.Failures, Failure{Kind: "spec", Stream: st.Name, Seed: seed, Index: 0,
+			Op:   fmt.Sprintf("(stall: no call returned for %d s after %d completed cases)", stallS, sum.Evaluations),
+			Impl: X(dump), Model: "every call returns", Spec: "fails", Scope: "in",
+			Pretty: fmt.Sprintf("STALL under stream %s: no validation / cache call returned for %d s (deadlock or livelock); goroutines:\n%s", st.Name, stallS, dump)})
+		sum.DistinctNontrivial = len(col.distinct)
+		sum.WallS = time.Since(start).Seconds()
+		sum.Stalled = true
+		col.mu.Unlock()
+		return sum
+	}
 	if st.Final != nil {
 		if d, err := StartDriver(driverPath); err == nil {
 			for k, cs := range st.Final() {
